@@ -540,6 +540,7 @@ class Overlay:
         self.files = []
         self.traits = set()   # local traits whose impls are kept as trait impls
         self.global_substs = []
+        self.cfgname = None
 
     def load(self, path):
         from common import read
@@ -573,6 +574,9 @@ class Overlay:
                 self.uses.setdefault(mod, []).append(arg)
             elif d == "@raw":
                 text, l0, i = block(i)
+                # `@raw cfg=A,B` : only for those configurations
+                if arg.startswith("cfg=") and self.cfgname not in arg[4:].split(","):
+                    continue
                 self.raw.setdefault(mod, []).append((text, rel, l0))
                 if mod not in self.order:
                     self.order.append(mod)
@@ -710,7 +714,11 @@ def _stmt_end(toks, i, hi):
                 depth += 1
             elif t.s in CLOSE:
                 if depth == 0:
-                    return j
+                    if t.s == "}":
+                        return j
+                    # inside a call argument list / parenthesised expression: keep going outwards
+                    j += 1
+                    continue
                 depth -= 1
             elif t.s == ";" and depth == 0:
                 return j + 1
@@ -743,9 +751,11 @@ def place_marks(body, fc):
             pos = {"inv": o, "body-start": o + 1, "body-end": c, "after": c + 1, "before": kw}[what]
             ins.append((pos, Mark(w, body[min(pos, len(body) - 1)])))
             continue
-        m = re.match(r"^(before|after)-call (\d+) of (.+)$", w)
+        m = re.match(r"^(before|after)-(call|tokens) (\d+) of (.+)$", w)
         if m:
-            pat = pat_of(m.group(3)) + ["("]
+            m = re.match(r"^(before|after)-(?:call|tokens) (\d+) of (.+)$", w), m.group(2)
+            pat = pat_of(m[0].group(3)) + (["("] if m[1] == "call" else [])
+            m = m[0]
             nth, start, hit = int(m.group(2)), 0, None
             for _ in range(nth):
                 hit = find_seq(body, pat, start)
@@ -1327,6 +1337,7 @@ def assemble(repo, unit, cfg, opts=None):
     from common import read
     opts = dict(unit.get("opts") or {}, **(opts or {}))   # unit-level rule options, overridable per run
     ov = Overlay()
+    ov.cfgname = cfg.name
     for p in unit["overlays"]:
         ov.load(p)
     table = load_sources(repo, unit["files"], cfg)
